@@ -216,6 +216,10 @@ func Chains(j *job.Job, s *job.Sink) {
 			return a
 		}
 		depth := 1 + r.Intn(3)
+		// One chain in six ends in a union of two members of the same parent type, the
+		// second carrying the last restriction: the members may compare equal and be
+		// merged, but a bad restriction on the second one is an error all the same.
+		unionLast, unionParent, unionExtra := false, "", ""
 		var b strings.Builder
 		b.WriteString("module m { namespace \"urn:m\"; prefix m;\n")
 		prevName := base
@@ -295,10 +299,27 @@ func Chains(j *job.Job, s *job.Sink) {
 			if base == "decimal64" && lvl == 0 {
 				extra = fmt.Sprintf(" fraction-digits %d;", fd)
 			}
-			fmt.Fprintf(&b, "  typedef %s { type %s {%s %s %q; } }\n", name, prevName, extra, kw, str)
+			if lvl == depth-1 && r.Intn(6) == 0 {
+				// the last restriction sits on the second of two union members of the same
+				// parent type (see below) instead of in a typedef of its own
+				unionLast, unionParent, unionExtra = true, prevName, extra
+			} else {
+				fmt.Fprintf(&b, "  typedef %s { type %s {%s %s %q; } }\n", name, prevName, extra, kw, str)
+			}
 			prevName = name
 		}
-		fmt.Fprintf(&b, "  leaf l { type %s; }\n}\n", prevName)
+		// One chain in six hangs the leaf's type into a union behind a plain member of the
+		// same name: the two members may compare equal (and be merged), but a bad
+		// restriction on the second one is an error all the same.
+		if unionLast {
+			first := "type " + unionParent + ";"
+			if unionExtra != "" {
+				first = "type " + unionParent + " {" + unionExtra + " }" // a decimal64 member needs its fraction-digits too
+			}
+			fmt.Fprintf(&b, "  leaf l { type union { %s type %s {%s %s %q; } } }\n}\n", first, unionParent, unionExtra, kw, restr[len(restr)-1])
+		} else {
+			fmt.Fprintf(&b, "  leaf l { type %s; }\n}\n", prevName)
+		}
 		text := b.String()
 		s.Current(c, map[string]string{"text": text})
 		s.Count("chains", 1)
@@ -319,6 +340,8 @@ func Chains(j *job.Job, s *job.Sink) {
 			viol("widening-accepted", expectErr+"; restrictions "+strings.Join(restr, " / "))
 		case expectErr == "" && len(errs) > 0:
 			viol("rejects-valid", fmt.Sprintf("%v; restrictions %s", errs[0], strings.Join(restr, " / ")))
+		case expectErr == "" && unionLast:
+			s.Count("union_member_chains_accepted", 1)
 		case expectErr == "":
 			t := yang.ToEntry(ms.Modules["m"]).Dir["l"].Type
 			got := t.Range
@@ -334,6 +357,9 @@ func Chains(j *job.Job, s *job.Sink) {
 			s.Count("chains_compared", 1)
 		default:
 			s.Count("chains_rejected_as_required", 1)
+			if unionLast {
+				s.Count("union_member_chains_rejected_as_required", 1)
+			}
 		}
 		if c%5000 == 0 {
 			s.Sample(1, map[string]string{"text": text})
